@@ -14,7 +14,7 @@ META = {
         "batching, container kind)."
     ),
     "floors": {
-        "quick": {"evaluations": 50000, "mon.history": 50000, "mon.combine": 2000, "mon.unwritten": 30, "mon.insitu_entries": 2000, "mon.grid": 1000, "mon.held_handles": 1000},
+        "quick": {"evaluations": 50000, "mon.history": 50000, "mon.combine": 2000, "mon.unwritten": 30, "mon.insitu_entries": 1000, "mon.grid": 1000, "mon.held_handles": 1000},
         "thorough": {"evaluations": 1000000, "mon.history": 1000000, "mon.combine": 20000, "mon.insitu_entries": 20000, "mon.grid": 20000, "mon.held_handles": 20000},
     },
     "exhaustive": {"quick": True, "thorough": True},
